@@ -681,6 +681,25 @@ class Injector(object):
 
     def inverse_missing_attr(self):
         g = self._copy()
+        # variant: the name EXISTS, but only as an own attribute of a SUBTYPE of the inverted entity (not visible from the inverted entity)
+        if self.rng.random() < .35:
+            c2 = []
+            for s in g.schemas:
+                for x in s.m.entities:
+                    upnames = set(a.name for anc in _safe_ancestors(s.m, x.name) | {x.name} if s.m.has_entity(anc) for a in s.m.entity(anc).attrs)
+                    for y in s.m.entities:
+                        if x.name in y.supers:
+                            for a in y.attrs:
+                                if a.name not in upnames:
+                                    c2.append((s, x, y, a))
+            if c2:
+                s, x, y, a = self.rng.choice(c2)
+                e = self.rng.choice(s.m.entities)
+                e.inverse.append(M.Inverse('zq_inv', x.name, a.name, 'SET', 0, None))
+                lines = g.lines()
+                ln = _lineno(lines, lambda l: l.startswith('  zq_inv :'))
+                return Mutant('INVERSE names a missing attribute', 'attribute declared only in a subtype of the inverted entity', '\n'.join(lines) + '\n',
+                              a.name, ln, _decl_start(lines, ln), ctx=dict(entity=x.name, in_entity=e.name, subtype=y.name))
         c = [(s, e, i) for s in g.schemas for e in s.m.entities for i in e.inverse]
         if c and self.rng.random() < .6:
             s, e, i = self.rng.choice(c)
@@ -695,7 +714,14 @@ class Injector(object):
         g = self._copy()
         s = self._pick_schema(g)
         e = self.rng.choice(s.m.entities)
-        t = self.rng.choice([t for t in s.m.types if t.kind in ('simple', 'enum')])
+        def has_entity(tt):
+            while tt is not None:
+                if tt.kind == 'entity' or (tt.kind == 'named' and s.m.has_entity(tt.name)):
+                    return True
+                tt = tt.elem
+            return False
+        # a defined type that is an aggregate OF ENTITIES is taken for its element entity by the resolver (other diagnostic): not this class
+        t = self.rng.choice([t for t in s.m.types if t.kind == 'enum' or (t.kind == 'simple' and not has_entity(t.base))])
         owner = self.rng.choice([x for x in s.m.entities if x.attrs])
         a = self.rng.choice(owner.attrs)
         e.inverse.append(M.Inverse('zq_inv', t.name, a.name, self.rng.choice(['SET', 'BAG', None]), 0, None))
